@@ -20,6 +20,8 @@ package route
 //@   loop 1 invariant forall j int :: 0 <= j && j <= rangeindex ==> !(isBlock(t.accessRules["allow:ip"][j]) && blockContains(unbox(t.accessRules["allow:ip"][j], *net.IPNet), ip))
 //@   loop 2 invariant forall j int :: 0 <= j && j <= rangeindex ==> !(isBlock(t.accessRules["deny:ip"][j]) && blockContains(unbox(t.accessRules["deny:ip"][j], *net.IPNet), ip))
 //@
+//@ // the IP a textual peer address stands for: a zone (fe80::1%eth0) does not change which block an address is in
+//@ spec fun noZone(h string) string = indexByte(h, '%') >= 0 ? h[:indexByte(h, '%')] : h
 //@ spec fun xffOK(t *Target, host string, x string) bool = trimSpace(x) == host || parseIP(trimSpace(x)) == nil || admitted(t, parseIP(trimSpace(x)))
 //@
 //@ func (*Target).AccessDeniedHTTP
@@ -30,9 +32,17 @@ package route
 //@   sets accessAdmitted = !result
 //@   ensures nopanic
 //@   ensures !restricted(t) ==> !result
-//@   ensures restricted(t) && !result ==> splitErr(r.RemoteAddr) == nil && admitted(t, parseIP(splitHost(r.RemoteAddr)))
-//@   ensures restricted(t) && !result && hget(r.Header, "X-Forwarded-For") != "" ==> forall j int :: 0 <= j && j < len(splitParts(hget(r.Header, "X-Forwarded-For"), ",")) ==> xffOK(t, splitHost(r.RemoteAddr), splitParts(hget(r.Header, "X-Forwarded-For"), ",")[j])
-//@   loop 1 invariant forall j int :: 0 <= j && j <= rangeindex ==> xffOK(t, host, splitParts(xff, ",")[j])
+//@   ensures restricted(t) && !result ==> splitErr(r.RemoteAddr) == nil && admitted(t, parseIP(noZone(splitHost(r.RemoteAddr))))
+//@   // EVERY address listed in X-Forwarded-For - on every line of that header - is admitted (or is the peer, or is no address)
+//@   ensures restricted(t) && !result ==> forall i int, j int :: 0 <= i && i < len(r.Header["X-Forwarded-For"]) && 0 <= j && j < len(splitParts(r.Header["X-Forwarded-For"][i], ",")) ==> xffOK(t, splitHost(r.RemoteAddr), splitParts(r.Header["X-Forwarded-For"][i], ",")[j])
+//@   loop 1 invariant forall i int, j int :: 0 <= i && i <= rangeindex && 0 <= j && j < len(splitParts(rangeover[i], ",")) ==> xffOK(t, host, splitParts(rangeover[i], ",")[j])
+//@   loop 2 invariant forall j int :: 0 <= j && j <= rangeindex ==> xffOK(t, host, splitParts(xff, ",")[j])
+//@
+//@ func stripZone
+//@   props C12
+//@   assigns nothing
+//@   ensures nopanic
+//@   ensures result == noZone(host)
 //@
 //@ func (*Target).AccessDeniedTCP
 //@   props C12
